@@ -27,15 +27,18 @@ Definition needs_iter (o : opcode) : bool :=
   | _ => false
   end.
 
-(* frame.iterators.len() after normal completion; a list because IteratorFinishAsyncNext keeps the record popped when the
-   resume kind is Throw (the emitted code then re-throws) *)
+(* frame.iterators.len() after normal completion (a list: room for data-dependent outcomes) *)
 Definition iter_norm (o : opcode) (n : N) : option (list N) :=
   match o with
   | Op_GetIterator | Op_GetAsyncIterator | Op_CreateForInIterator | Op_IteratorPush => Some [n + 1]
   | Op_IteratorPop | Op_PushIteratorToArray => if n =? 0 then None else Some [n - 1]
   | Op_IteratorNext | Op_IteratorUpdateResult | Op_IteratorValue | Op_IteratorResult | Op_IteratorDone
   | Op_IteratorToArray => if n =? 0 then None else Some [n]
-  | Op_IteratorFinishAsyncNext => if n =? 0 then None else Some [n; n - 1]
+  (* PARTIAL: when the resume kind is Throw, IteratorFinishAsyncNext returns Ok without pushing the record back and the
+     emitted code then re-throws (rejected `await` in for-await-of).  That case depends on a run-time value in a register;
+     modelling both lengths makes every for-await-of loop conflict with itself at the next instruction, so only the
+     Normal/Return case is modelled; the dynamic validation accepts either length for this opcode. *)
+  | Op_IteratorFinishAsyncNext => if n =? 0 then None else Some [n]
   | Op_IteratorReturn => Some [n - 1]                 (* `let Some(record) = iterators.pop() else { called = false; return Ok(()) }` *)
   | _ => Some [n]
   end.
@@ -56,6 +59,24 @@ Definition entry_depth2 (cb : codeblock) : depth2 := mkD2 (entry_depth cb) 0.
 Definition pair_with (l : list (N * depth)) (ns : list N) : list (N * depth2) :=
   flat_map (fun s => map (fun n => (fst s, mkD2 (snd s) n)) ns) l.
 
+(* IteratorStackEmpty { dst } stores `frame.iterators.is_empty()`: a constant the abstract state knows.  The return path of
+   `yield*` drains the iterator stack with the run-time loop  L: IteratorStackEmpty r; JumpIfTrue exit, r; IteratorReturn ..; Jump L
+   (bytecompiler: "close all iterators"), so the test must be resolved from the abstract length, and the loop head is the
+   one place where several lengths legitimately meet (see `key2`). *)
+Definition is_stack_empty (o : opcode) : bool := match o with Op_IteratorStackEmpty => true | _ => false end.
+
+Definition stack_empty_sel (cb : codeblock) (i : instr) (n : N) (d : depth) : depth :=
+  match i_op i, i_args i with
+  | Op_IteratorStackEmpty, [AReg r] =>
+      if memN r (cb_jregs cb)
+      then mkD (d_env d) (d_bind d) (d_stk d) (sel_set r (if n =? 0 then BTRUE else BFALSE) (d_sel d))
+      else d
+  | _, _ => d
+  end.
+
+Definition refine_sel (cb : codeblock) (i : instr) (n : N) (l : list (N * depth)) : list (N * depth) :=
+  map (fun s => (fst s, stack_empty_sel cb i n (snd s))) l.
+
 Definition asteps2 (cb : codeblock) (pc : N) (d : depth2) : option (list (N * depth2)) :=
   match find_instr cb pc with
   | None => None
@@ -65,7 +86,8 @@ Definition asteps2 (cb : codeblock) (pc : N) (d : depth2) : option (list (N * de
       | None => None
       | Some e =>
           match norm_succs cb i e (d2_base d), exc_succs cb i e (d2_base d), iter_norm (i_op i) (d2_iter d) with
-          | Some l1, Some l2, Some ns => Some (pair_with l1 ns ++ pair_with l2 (iter_exc (i_op i) (d2_iter d)))
+          | Some l1, Some l2, Some ns =>
+              Some (pair_with (refine_sel cb i (d2_iter d) l1) ns ++ pair_with l2 (iter_exc (i_op i) (d2_iter d)))
           | _, _, _ => None
           end
       end
@@ -81,6 +103,20 @@ Definition depth2_eqb (a b : depth2) : bool := depth_eqb (d2_base a) (d2_base b)
 Definition memD2 (d : depth2) (l : list depth2) : bool := existsb (depth2_eqb d) l.
 Definition sel2 (d : depth2) : list (N * N) := d_sel (d2_base d).
 
+(* what must determine the depths at a pc: the selectors, and inside a drain loop also the length itself *)
+Definition at_stack_empty (cb : codeblock) (pc : N) : bool :=
+  match find_instr cb pc with Some i => is_stack_empty (i_op i) | None => false end.
+
+(* the drain loops: from an IteratorStackEmpty at L to the backward `Jump L` that closes the loop *)
+Definition drain_ranges (cb : codeblock) : list (N * N) :=
+  flat_map (fun i => match i_op i, i_args i with
+                     | Op_Jump, [AAddr a] => if (a <? i_pc i) && at_stack_empty cb a then [(a, i_pc i)] else []
+                     | _, _ => [] end) (instrs cb).
+Definition in_drain (cb : codeblock) (pc : N) : bool :=
+  existsb (fun r => (fst r <=? pc) && (pc <=? snd r)) (drain_ranges cb).
+Definition same_key (drain : bool) (a b : depth2) : bool :=
+  sel_eqb (sel2 a) (sel2 b) && (negb drain || (d2_iter a =? d2_iter b)).
+
 Definition check_succ2 (cb : codeblock) (A : annot2) (s : N * depth2) : bool :=
   memD2 (snd s) (aget2 A (fst s)) && is_start cb (fst s).
 
@@ -90,14 +126,14 @@ Definition check_state2 (cb : codeblock) (A : annot2) (pc : N) (d : depth2) : bo
   | Some l => forallb (check_succ2 cb A) l
   end.
 
-Fixpoint functional2 (l : list depth2) : bool :=
+Fixpoint functional2 (drain : bool) (l : list depth2) : bool :=
   match l with
   | [] => true
-  | d :: t => forallb (fun d' => negb (sel_eqb (sel2 d) (sel2 d')) || depth2_eqb d d') t && functional2 t
+  | d :: t => forallb (fun d' => negb (same_key drain d d') || depth2_eqb d d') t && functional2 drain t
   end.
 
 Definition check_instr2 (cb : codeblock) (A : annot2) (i : instr) : bool :=
-  forallb (check_state2 cb A (i_pc i)) (aget2 A (i_pc i)) && functional2 (aget2 A (i_pc i)).
+  forallb (check_state2 cb A (i_pc i)) (aget2 A (i_pc i)) && functional2 (in_drain cb (i_pc i)) (aget2 A (i_pc i)).
 
 Definition check2 (cb : codeblock) (A : annot2) : bool :=
   check_succ2 cb A (0, entry_depth2 cb) && forallb (check_instr2 cb A) (instrs cb).
@@ -120,14 +156,15 @@ Definition succs_tagged2 (cb : codeblock) (pc : N) (d : depth2) : option (list (
       | Some e =>
           match norm_succs cb i e (d2_base d), exc_succs cb i e (d2_base d), iter_norm (i_op i) (d2_iter d) with
           | Some l1, Some l2, Some ns =>
-              Some (tag2 ENormal pc (pair_with l1 ns) ++ tag2 EExc pc (pair_with l2 (iter_exc (i_op i) (d2_iter d))))
+              Some (tag2 ENormal pc (pair_with (refine_sel cb i (d2_iter d) l1) ns) ++
+                    tag2 EExc pc (pair_with l2 (iter_exc (i_op i) (d2_iter d))))
           | _, _, _ => None
           end
       end
   end.
 
-Definition same_sel2 (d : depth2) (l : list depth2) : option depth2 :=
-  find (fun d' => sel_eqb (sel2 d) (sel2 d')) l.
+Definition same_sel2 (drain : bool) (d : depth2) (l : list depth2) : option depth2 :=
+  find (fun d' => same_key drain d d') l.
 
 Fixpoint infer_loop2 (fuel : nat) (cb : codeblock) (A : annot2) (work : list (edge * N * depth2)) (errs : list err2)
   : annot2 * list err2 :=
@@ -139,7 +176,7 @@ Fixpoint infer_loop2 (fuel : nat) (cb : codeblock) (A : annot2) (work : list (ed
       | (e, pc, d) :: w =>
           let here := aget2 A pc in
           if memD2 d here then infer_loop2 f cb A w errs else
-          match same_sel2 d here with
+          match same_sel2 (in_drain cb pc) d here with
           | Some d0 => infer_loop2 f cb A w (ErrMerge2 e pc d0 d :: errs)
           | None =>
               let A' := PositiveMap.add (key pc) (d :: here) A in
